@@ -659,4 +659,4 @@ def replay(path, seed):
         return 0 if ok else 1
     if isinstance(inp, dict) and inp.get("op") in ("jitter", "parse", "base", "delays"):
         print("impl now:", vlib.run_impl(binary, "backoff", [inp])[0])
-    return 0
+    return 2   # not a kind of record this function knows how to replay (the driver then re-runs the check)
